@@ -110,7 +110,8 @@ pub fn explore(ctx: &Ctx) {
     ctx.rule("every (start, span, k) triple is one partition case and every (start, span, site, params) one range-API case; non-trivial = k >= 2 on a non-empty range (a real split) resp. a range-API result compared key-by-key and value-by-value with the single-date API");
     ctx.assume("k < 2 on an empty range returns the range itself (no days) - accepted");
     ctx.assume("the range API is only invoked when num_days() <= 10000 (a wrong count on a reversed range would iterate practically forever; the num_days clause reports it)");
-    let starts = [ymd(2023, 1, 1), ymd(2023, 12, 25), ymd(2024, 2, 20), ymd(1999, 12, 31), ymd(2100, 2, 27), ymd(1600, 1, 1)];
+    // incl. a start shortly before the 1582 Julian->Gregorian switch of the Julian Day and the first year of the calendar
+    let starts = [ymd(2023, 1, 1), ymd(2023, 12, 25), ymd(2024, 2, 20), ymd(1999, 12, 31), ymd(2100, 2, 27), ymd(1600, 1, 1), ymd(1582, 9, 20), ymd(1, 1, 1)];
     let (smin, smax) = (-400i64, 2000i64);
     let kmax = 64;
     ctx.alphabet("starts", json!(starts.iter().map(|d| d.to_string()).collect::<Vec<_>>()));
